@@ -2,7 +2,6 @@ import Uhppote.Model.Api
 import Uhppote.Spec.Api
 import Uhppote.Gen.Routing
 import Uhppote.Gen.Driver
-import Uhppote.Props.C01
 /-! # C06 — each request is sent once, to the right endpoint, over the right transport (partial)
 
 The routing closure of `sendto` and `resolve` are regenerated (`Gen.Routing`); `Model.Api.route`
